@@ -24,13 +24,18 @@ Definition family_slots (c : string) : list string :=
 
 Definition subset (a b : list string) : bool := forallb (fun x => existsb (String.eqb x) b) a.
 
-(** a value that can change must not be hashable; a hashable frozen class hashes ALL of its slots and nothing else *)
+(** What C05 states about hashes is about FROZEN values only (their observable value never changes; a copy is equal to
+    its source): a frozen class is either unhashable or hashes ALL of its slots and nothing else (object identity is
+    rejected: a pickled copy of a key would not be found).  The property says nothing about the hash of a value that can
+    change: rows of the mutable classes pass whatever they are (round 5; see [hash_conventions] below). *)
 Definition hash_row_ok (r : hash_row) : bool :=
-  match snd r with
-  | HUnhashable => true
-  | HSlots l => frozen_class (fst r) && subset l (family_slots (fst r)) && subset (family_slots (fst r)) l
-  | HIdentity | HUnknown => false
-  end.
+  if frozen_class (fst r) then
+    match snd r with
+    | HUnhashable => true
+    | HSlots l => subset l (family_slots (fst r)) && subset (family_slots (fst r)) l
+    | HIdentity | HUnknown => false
+    end
+  else true.
 
 Fixpoint lookup (c : string) (rows : list hash_row) : option hkind :=
   match rows with
@@ -40,11 +45,17 @@ Fixpoint lookup (c : string) (rows : list hash_row) : option hkind :=
 
 Definition is_hslots (o : option hkind) : bool := match o with Some (HSlots _) => true | _ => false end.
 
-(** all six classes listed; FrozenVec and FrozenAngle usable as dictionary keys *)
+(** all six classes listed, every row of a frozen class acceptable *)
 Definition hash_table_ok (rows : list hash_row) : bool :=
   forallb hash_row_ok rows
   && forallb (fun c => match lookup c rows with Some _ => true | None => false end)
-             ["Vec"; "FrozenVec"; "Angle"; "FrozenAngle"; "Matrix"; "FrozenMatrix"]
+             ["Vec"; "FrozenVec"; "Angle"; "FrozenAngle"; "Matrix"; "FrozenMatrix"].
+
+(** Python conventions that today's source follows but C05 does not state (an OBSERVATION in the evidence of the check, not
+    an obligation): a value that can change is unhashable, only frozen classes hash by value, FrozenVec and FrozenAngle are
+    usable as dictionary keys. *)
+Definition hash_conventions (rows : list hash_row) : bool :=
+  forallb (fun r : hash_row => match snd r with HUnhashable => true | HSlots _ => frozen_class (fst r) | HIdentity | HUnknown => false end) rows
   && is_hslots (lookup "FrozenVec" rows) && is_hslots (lookup "FrozenAngle" rows).
 
 Definition bad_hash_rows (rows : list hash_row) : list string := map fst (filter (fun r => negb (hash_row_ok r)) rows).
